@@ -81,6 +81,17 @@ def _fixed_rounds_at_last_decimal(ctx, rep):
 
 
 def check(ctx, rep):
+    from . import c07 as _c07, _share as _sh8
+    _sh8.share(ctx, rep, _c07, ('print.window-limits-alike', 'print.sign-after-shift'), 'the digits of a field come from Float.to_decimal: its working window and its rounding are the same for both signs and both limits')
+    # the mantissa is made with `work_digits` digits (the call to to_decimal), so the radix lies `work_digits` places to the right of
+    # the returned exponent -- counted in the digits actually produced, not in the digits the field asks for
+    from ..algebra import lin as _lin8
+    sc8 = ctx.fn('pcbasic/basic/values/numbers.py:Float.to_str_scientific')
+    td = [c for c in own_nodes(sc8) if isinstance(c, ast.Call) and isinstance(c.func, ast.Attribute) and c.func.attr == 'to_decimal' and c.args]
+    rp = [a for a in own_nodes(sc8) if isinstance(a, ast.Assign) and norm(a.targets[0]) == 'radix_position']
+    ok8 = len(td) == 1 and len(rp) == 1 and _lin8(rp[0].value) == {'exponent': 1, norm(td[0].args[0]): 1}
+    rep.ob('scientific.radix-counted-in-produced-digits', 'to_str_scientific: radix position = exponent + the digit count given to to_decimal', ok8,
+           '%s with to_decimal(%s)' % (norm(rp[0].value) if rp else None, norm(td[0].args[0]) if td else None), ctx.where(sc8))
     # scientific fields: to_decimal may return one digit more than asked for when rounding carries; the digit string is then cut to
     # the field, so the radix position has to move with the extra digit (or 9.96 in ##.#^^^^ is shown as a tenth of its value)
     sc = ctx.fn('pcbasic/basic/values/numbers.py:Float.to_str_scientific')
@@ -221,6 +232,8 @@ def variants(ctx):
         return lambda tree: f(mu.find_def(tree, f_name))
 
     return [
+        mu.Variant('radix-counted-in-requested-digits', 'break', 'pcbasic/basic/values/numbers.py',
+                   lambda tree: mu.replace_expr(mu.find_def(tree, 'Float.to_str_scientific'), mu.text_is('exponent + work_digits'), 'exponent + digits_requested'), expect='scientific.radix-counted-in-produced-digits'),
         mu.Variant('carried-digit-cut-without-moving-the-exponent', 'break', 'pcbasic/basic/values/numbers.py',
                    lambda tree: mu.remove_stmt(mu.find_def(tree, 'Float.to_str_scientific'), lambda st: isinstance(st, ast.If) and 'len(digitstr) > work_digits' in norm(st.test)), expect='scientific.exponent-follows-a-carried-digit'),
         mu.Variant('doubles-formatted-as-singles', 'break', 'pcbasic/basic/devices/formatter.py',
